@@ -363,6 +363,18 @@ func cmdRun(args []string) int {
 		fmt.Printf("  [%s] %s :: %s\n", cv.rec.Code, cv.rec.Quoted, firstLine(pickMsg(cv.rec)))
 	}
 
+	if dump := os.Getenv("VERIF_DUMP"); dump != "" {
+		var sb strings.Builder
+		for _, cv := range classified {
+			k := "NEW"
+			if cv.known != nil {
+				k = cv.known.ID
+			}
+			fmt.Fprintf(&sb, "%s\t%s\t%s\t%s\t%s\n", k, cv.rec.Code, cv.rec.Gen, cv.rec.Quoted, strings.ReplaceAll(pickMsg(cv.rec), "\n", " | "))
+		}
+		os.WriteFile(dump, []byte(sb.String()), 0o644)
+	}
+
 	// coverage gates
 	var gateFailures []string
 	if g, ok := m.(core.Gater); ok {
